@@ -239,8 +239,229 @@ def tokDisplay (impl : String) : P Verdict := do
   let spec := (prt.lookup v).map (fun t => hexText t.toList)
   pure (verdictOf impl ((model.map hexText).getD "?") (some (spec.getD "?")) [] s!"tokd/{table}")
 
+/-! ### labels -/
+
+def pLabel : P LabelL := do
+  let t ← nat; let c ← opt utext; let n ← utext; let f ← opt utext
+  pure { ty := if t == 0 then .specified else .generic, cls := c, name := n, flavor := f }
+def encOptText : Option Str → String
+  | none => "0"
+  | some t => s!"1 {hexText t}"
+def encLabel (l : LabelL) : String :=
+  sp [match l.ty with | .specified => "0" | .generic => "1", encOptText l.cls, hexText l.name, encOptText l.flavor]
+
+/-- `C06.plabel <text>` — `Label::from_str`, then `to_string`.  impl: `ok <label> <hex display>` | `err`.
+Spec: accepted iff the reference reader `refLabel` reads it, with the same fields (the `Display` text of a
+label is not the file syntax and is outside the statement: compared against the model only). -/
+def labelParse (impl : String) : P Verdict := do
+  let t ← utext
+  let model := match full parseLabelL t with
+    | some l => s!"ok {encLabel l} {hexText (printLabelL l)}"
+    | none => "err"
+  let (specOk, spec) := match refLabel t with
+    | none => (impl == "err", "err")
+    | some l => (impl.startsWith s!"ok {encLabel l} ", s!"ok {encLabel l} <display>")
+  pure { modelEq := impl == model, specOk := some specOk, kf := [],
+         tag := if model == "err" then "plabel/err" else "plabel/ok", model := model, spec := spec }
+
+/-! ### documents -/
+
+def pPad : P Pad := do
+  let a ← utext; let b ← utext; let c ← utext; let d ← utext
+  pure { lead := a, pre := b, post := c, trail := d }
+
+def pMisc : P Misc := do
+  let k ← nat
+  match k with
+  | 0 => do let l ← utext; let t ← utext; pure (.comment l t)
+  | 1 => do let w ← utext; pure (.blank w)
+  | 2 => do let p ← pPad; let cs ← list utext; pure (.classes p cs)
+  | _ => do let p ← pPad; let rs ← list (pair utext (opt utext)); pure (.uaOs p rs)
+
+def pItem {lab σ} (pl : P lab) (ps : P σ) : P (Item lab σ) := do
+  let k ← nat
+  match k with
+  | 0 => do let m ← pMisc; pure (.misc m)
+  | 1 => do let p ← pPad; let l ← pl; pure (.label p l)
+  | 2 => do let p ← pPad; let t ← utext; pure (.sys p t)
+  | _ => do let p ← pPad; let s ← ps; pure (.sig p s)
+
+def pSection : P Section := do
+  let k ← nat; let lead ← utext; let trail ← utext
+  match k with
+  | 0 => do let r ← bool; let it ← list (pItem pLabel pTcpSig); pure (.tcp lead trail r it)
+  | 1 => do let r ← bool; let it ← list (pItem pLabel pHttpSig); pure (.http lead trail r it)
+  | 2 => do let it ← list (pItem utext nat); pure (.mtu lead trail it)
+  | _ => do
+    let m ← utext; let d ← opt utext; let it ← list (pItem pLabel utext)
+    pure (.other lead trail m d it)
+
+def pDoc : P Doc := do
+  let pre ← list pMisc; let secs ← list pSection
+  pure { pre := pre, sections := secs }
+
+def encTable {σ} (f : σ → String) (t : Table σ) : String :=
+  encList (fun (e : Label × List σ) => sp [encLabel (.ofSig e.1), encList f e.2]) t
+
+/-- canonical value form of a loaded database (mirrored by `db_values` in the harness) -/
+def dbValues (db : Db) : String :=
+  sp ["ok", "C", encList hexText db.classes,
+      "M", encList (fun (e : Str × List Nat) => sp [hexText e.1, encList toString e.2]) db.mtu,
+      "U", encList (fun (e : Str × Option Str) => sp [hexText e.1, encOptText e.2]) db.uaOs,
+      "T0", encTable encTcp db.tcpReq, "T1", encTable encTcp db.tcpResp,
+      "H0", encTable (fun s => encHttp (.ofSig s)) db.httpReq,
+      "H1", encTable (fun s => encHttp (.ofSig s)) db.httpResp]
+
+def loadOut (text : Str) : String :=
+  match loadDb text with
+  | .ok db => dbValues db
+  | .error e => "err:" ++ e.name
+
+def insertAt {α} (l : List α) (i : Nat) (x : α) : List α := l.take i ++ x :: l.drop i
+
+def sectionItemsLabels : Section → List Bool     -- per item: is it a label
+  | .tcp _ _ _ it => it.map fun | .label _ _ => true | _ => false
+  | .http _ _ _ it => it.map fun | .label _ _ => true | _ => false
+  | .mtu _ _ it => it.map fun | .label _ _ => true | _ => false
+  | .other _ _ _ _ it => it.map fun | .label _ _ => true | _ => false
+
+def tableKey : Section → String
+  | .tcp _ _ r _ => if r then "T1" else "T0"
+  | .http _ _ r _ => if r then "H1" else "H0"
+  | .mtu _ _ _ => "M"
+  | .other _ _ _ _ _ => "-"
+
+structure Fault where
+  kind : Nat
+  sec : Nat       -- 0: before the first section; k+1: in section k
+  idx : Nat
+  text : Str      -- kind 0: the whole line; otherwise the value after `sig = ` / `label = `
+  deriving Repr
+
+def pFault : P (Option Fault) := do
+  let b ← bool
+  if !b then pure none else do
+    let k ← nat; let s ← nat; let i ← nat; let t ← utext
+    pure (some { kind := k, sec := s, idx := i, text := t })
+
+def faultLine (f : Fault) : Str :=
+  if f.kind == 0 then f.text
+  else if f.kind == 3 then "label = ".toList ++ f.text
+  else "sig = ".toList ++ f.text
+
+def linesWithFault (d : Doc) (f : Option Fault) : List Str :=
+  match f with
+  | none => docLines d
+  | some f =>
+    if f.sec == 0 then insertAt (d.pre.map renderMisc) f.idx (faultLine f) ++ d.sections.flatMap sectionLines
+    else
+      d.pre.map renderMisc ++
+      (d.sections.zipIdx.flatMap fun (s, k) =>
+        if k + 1 == f.sec then
+          match sectionLines s with
+          | h :: items => h :: insertAt items f.idx (faultLine f)
+          | [] => []
+        else sectionLines s)
+
+/-- is a label of the same table written before position (sec, idx)? -/
+def labelBefore (d : Doc) (f : Fault) : Bool :=
+  match d.sections[f.sec - 1]? with
+  | none => false
+  | some s =>
+    ((d.sections.take (f.sec - 1)).any fun s' => tableKey s' == tableKey s && (sectionItemsLabels s').any id) ||
+    ((sectionItemsLabels s).take f.idx).any id
+
+/-- the inserted line really is one of the faults the statement names -/
+def faultGenuine (d : Doc) (f : Fault) : Bool :=
+  let sec := d.sections[f.sec - 1]?
+  let key := (sec.map tableKey).getD "-"
+  match f.kind with
+  | 0 => f.sec == 0 &&
+      (let t := trim f.text
+       !t.isEmpty && t.head? != some ';' && t.head? != some '[' &&
+       (stripPrefix classesKw t).isNone && (stripPrefix uaOsKw t).isNone)
+  | 1 => f.sec != 0 && key != "-" && !labelBefore d f &&
+      (if key == "M" then f.text == "1500".toList
+       else if key.startsWith "T" then (refTcp f.text).isSome
+       else (parseHttpSigFullL f.text).isSome)
+  | 2 => f.sec != 0 && labelBefore d f &&
+      (if key.startsWith "T" then (refTcp f.text).isNone
+       else if key.startsWith "H" then (parseHttpSigFullL f.text).isNone else false)
+  | 3 => f.sec != 0 && key != "M" && (refLabel f.text).isNone
+  | 4 => f.sec != 0 && key == "M" && labelBefore d f && (refNum 65535 f.text).isNone &&
+      f.text.head? != some '+'
+  | _ => false
+
+/-- `C06.doc <doc> <fault> <text>` — `Database::from_str` on the rendering of a structured document,
+optionally with one faulty line inserted.  impl: the loaded database in value form | `err:<kind>`.
+Spec: a well-formed document loads to exactly `flatten d`; a document with a genuine fault is rejected. -/
+def docLoad (impl : String) : P Verdict := do
+  let d ← pDoc; let f ← pFault; let text ← utext
+  let mine := renderLines (linesWithFault d f)
+  if mine != text then failure    -- harness and specification must render the same text
+  let model := loadOut text
+  let kfUa := decide (Huginn.KF.C06.uaOsLossy d)
+  let nsec := d.sections.length
+  match f with
+  | some f =>
+    if !faultGenuine d f then failure
+    let kf := if f.kind == 2 && decide (Huginn.KF.C06.unknownKindOverflow f.text) then ["KF.C06.unknownKindOverflow"] else []
+    pure { modelEq := impl == model, specOk := some (impl.startsWith "err:"), kf := kf,
+           tag := s!"doc/fault{f.kind}/" ++ (if model.startsWith "err:" then model else "accepted"),
+           model := model, spec := "err:<any>" }
+  | none =>
+    let wf := decide (WFDoc d)
+    let spec := dbValues (flatten d)
+    pure { modelEq := impl == model, specOk := if wf then some (impl == spec) else none,
+           kf := (if kfUa then ["KF.C06.uaOsLossy"] else []) ++
+             (if decide (Huginn.KF.C06.docEmptyHorder d) then ["KF.C06.httpEmptyHorder"] else []),
+           tag := (if wf then "doc/wf/" else "doc/nonwf/") ++ s!"s{min nsec 3}/" ++
+             (if model.startsWith "err:" then model else "ok"),
+           model := model, spec := if wf then spec else "-" }
+
+/-- `C06.raw <text>` — `Database::from_str` on arbitrary text (model correspondence only). -/
+def rawLoad (impl : String) : P Verdict := do
+  let text ← utext
+  let model := loadOut text
+  pure { modelEq := impl == model, specOk := none, kf := [],
+         tag := if model.startsWith "err:" then "raw/" ++ model else "raw/ok", model := model, spec := "-" }
+
+def fileLabel (l : Label) : String := hexText (renderLabel (.ofSig l))
+def printedTable {σ} (pr : σ → Str) (t : Table σ) : String :=
+  encList (fun (e : Label × List σ) => sp [fileLabel e.1, encList (fun s => hexText (pr s)) e.2]) t
+def specTable (sec : String) : String :=
+  match Gen.Bundled.groups.filter (·.1 == sec) with
+  | [] => "0"
+  | gs => encList (fun (e : String × List String) =>
+      sp [hexText e.1.toList, encList (fun s => hexText s.toList) e.2]) (gs.flatMap (·.2))
+
+/-- `C06.bundled <part>` — the bundled database as `Database::load_default` loads it, one part at a
+time, in printed form.  Model: the loader model on the regenerated non-comment lines.  Spec: the
+extractor's independent (regex) reading of what the file says. -/
+def bundled (impl : String) : P Verdict := do
+  let part ← tok
+  let text := renderLines (Gen.Bundled.lines.map (·.2.2.toList))
+  let db := match loadDb text with | .ok db => db | .error _ => {}
+  let (model, spec, kf) := match part with
+    | "classes" => (encList hexText db.classes, encList (fun s => hexText s.toList) Gen.Bundled.classes, [])
+    | "uaos" =>
+      (encList (fun (e : Str × Option Str) => sp [hexText e.1, encOptText e.2]) db.uaOs,
+       encList (fun (e : String × Option String) => sp [hexText e.1.toList, encOptText (e.2.map String.toList)]) Gen.Bundled.uaOs,
+       if Gen.Bundled.uaOs.any (fun r => decide (Huginn.KF.C06.ruleUnreadable (r.1.toList, r.2.map String.toList)))
+       then ["KF.C06.uaOsLossy"] else [])
+    | "mtu" =>
+      (encList (fun (e : Str × List Nat) => sp [hexText e.1, encList (fun n => hexText (natDigits n)) e.2]) db.mtu,
+       specTable "mtu", [])
+    | "tcp:request" => (printedTable printTcpSig db.tcpReq, specTable part, [])
+    | "tcp:response" => (printedTable printTcpSig db.tcpResp, specTable part, [])
+    | "http:request" => (printedTable printHttpSig db.httpReq, specTable part, [])
+    | "http:response" => (printedTable printHttpSig db.httpResp, specTable part, [])
+    | _ => ("?", "?", [])
+  pure (verdictOf impl model (some spec) kf s!"bundled/{part}")
+
 def handlers : List (String × (String → P Verdict)) :=
   [("C06.tcp", tcpRoundTrip), ("C06.ptcp", tcpParse), ("C06.http", httpRoundTrip),
-   ("C06.phttp", httpParse), ("C06.line", bundledLine), ("C06.tokp", tokParse), ("C06.tokd", tokDisplay)]
+   ("C06.phttp", httpParse), ("C06.line", bundledLine), ("C06.tokp", tokParse), ("C06.tokd", tokDisplay),
+   ("C06.plabel", labelParse), ("C06.doc", docLoad), ("C06.raw", rawLoad), ("C06.bundled", bundled)]
 
 end Huginn.Drv.C06
